@@ -43,7 +43,7 @@ pub(crate) mod verif_merkle {
             return None;
         }
         let depth = path.len() / W;
-        let mut inp = [0u8; 9];
+        let mut inp = [0u8; 72];
         inp[1..1 + leaf.len()].copy_from_slice(leaf);
         let full = ring::digest::model_hash(&inp[..1 + leaf.len()]);
         let mut h = [0u8; W];
